@@ -179,6 +179,13 @@ def run(ctx: Ctx):
                 e = tuple((x + IMAX if x < 0 else x) for x in eff[:2]) + tuple(eff[2:])
                 pts = points_for(e, r, setup["h"], setup["N"]) or [(e[0] + 1.0, e[2] + 1.0, 1.0)]
             job_subs.append((list(s) if s is not None else None, pts))
+        if linear and setup["N"] >= 3:
+            # every particle of this batch sits exactly at the depth of an interior s-level of its cell (weight exactly 0)
+            from ladim.ROMS import sdepth
+            zr = sdepth(setup["h"], setup["hc"], setup["Cs_r"], stagger="rho", Vtransform=setup["vt"])
+            base = points_for((1, IMAX - 1, 1, JMAX - 1), r, setup["h"], setup["N"])
+            lev = [(x, y, float(-zr[1 + i % (setup["N"] - 2), int(round(y)), int(round(x))])) for i, (x, y, _) in enumerate(base)]
+            job_subs.append((None, lev))
         jobs.append(dict(seed=1000 * ctx.seed + k, linear=linear, packed=packed, subs=job_subs))
     results = pmap(run_setup, jobs, chunksize=1)
     # model requests
